@@ -46,6 +46,11 @@ def check_batch(res, cases, perms, tag):
         res.dist[f"{tag}:rules={min(len(rules), 15)}"] += 1
         if any(s < 0 for _, _, ss in rules for s in ss):
             res.dist[f"{tag}:has_negative_shift"] += 1
+        if " | rest=" in line:
+            line, _, rest = line.rpartition(" | rest=")
+            # the hypothesis of the proven tm_eq_lfp (every insertion came to rest within the fuel), evaluated for this history
+            res.dist[f"{tag}:hypothesis of tm_eq_lfp holds (every insertion came to rest)" if rest == "1" else
+                     f"{tag}:an insertion of the model did not come to rest within the fuel (tm_eq_lfp does not apply)"] += 1
         m, l = line[2:].split(" | L ")
         model = m.split(";")
         ref = l.split(";")
